@@ -551,3 +551,19 @@ Definition preimage (trans target : Z) (byname : bool) (rn : list (nat * nat))
   s <- get ;;
   r <- image_rec (S (S (2 * nvars s))) trans target None (Some d) q forall_ ∅ ;;
   ret (fst r).
+
+(** ** Public entry points of the module functions that are not wrapped by
+    the retry decorator.  [image], [preimage] and [copy_bdd] index their
+    arguments (rename map, quantified variables, level map) by LEVELS computed
+    on entry and keep unreferenced intermediate results, so a dynamic
+    reordering served by the nested decorated [ite] would invalidate both;
+    since the repair of dd they run with reordering requests disabled and
+    restore the threshold afterwards ([guarded], as [swap]). *)
+Definition image_pub (trans source : Z) (byname : bool) (rn : list (nat * nat))
+    (qbyname : bool) (qvars : list nat) (forall_ : bool) : MS Z :=
+  guarded (image trans source byname rn qbyname qvars forall_).
+Definition preimage_pub (trans target : Z) (byname : bool) (rn : list (nat * nat))
+    (qbyname : bool) (qvars : list nat) (forall_ : bool) : MS Z :=
+  guarded (preimage trans target byname rn qbyname qvars forall_).
+Definition copy_bdd_pub (src : st) (u : Z) : MS Z := guarded (copy_bdd src u).
+
